@@ -4,8 +4,8 @@ from .c19 import COMMON_TB
 
 NAMES = ['f', 'g', 'g4', 'c', 'd', 'var', 'u', 'h', 'lam', 'app', 'let', 'sum2', 'k', 'add', 'mul', 'sum', 'tag', 'num', 'flag', 'sym']
 
-EG_TB = COMMON_TB + [
-    'axiom functional_extensionality_dep (Coq standard library) in Deriv_sound only; everything else is closed under the global context',
+EG_TB = [x for x in COMMON_TB if not x.startswith('axioms:')] + [
+    'axioms: functional_extensionality_dep (Coq standard library) is used by Deriv_sound and by the theorems that evaluate under binders (C03: pool validity, instantiation lemma, soundness of the congruence in F_p); every other theorem is closed under the global context (Print Assumptions is run under every theorem of props/ on every check and compared with this allow-list)',
     'the semantic layer (Sem/: canonical terms, Deriv, bounded closure, algebras) and the explanation checker are specifications/checkers written for this purpose, not models of /repo code; what is modelled of /repo is the term encoding (RecExpr <-> rterm -> cterm) done by the harness and Sem/Term.v',
 ]
 
